@@ -82,7 +82,7 @@ def st_c01(tier, sd):
             if mode.get('poll') and net not in ('frag',):
                 continue
             c = {'network': net, 'codec': codec, 'header': hdr, 'conns': 3, 'callers': 4, 'calls': n, 'sizes': sizes,
-                 'failevery': 9, 'missevery': 11, 'cached': 8, 'frag': 9 if net == 'frag' else 0, 'bufsize': [0, 512, 70000][len(out) % 3], 'forms': 'call,call,go,ctx,rt'}
+                 'failevery': 9, 'missevery': 11, 'cached': 8, 'frag': (9 if not big else 1021) if net == 'frag' else 0, 'bufsize': [0, 512, 70000][len(out) % 3], 'forms': 'call,call,go,ctx,rt'}
             c.update(mode)
             out.append(c)
     return out
